@@ -28,7 +28,8 @@ REQUIRED_COUNTERS = {"towers": {"quick": 3000, "thorough": 60000},
                      "identitydict_ops": {"quick": 20000, "thorough": 400000},
                      "non_function_wrappers": {"quick": 1000, "thorough": 20000},
                      "nest_same_name_deeper_in_earlier_sibling": {"quick": 300, "thorough": 6000},
-                     "late_customizations": {"quick": 100, "thorough": 400}}
+                     "late_customizations": {"quick": 100, "thorough": 400},
+                     "stacked_registrations": {"quick": 50, "thorough": 200}}
 SHARD_TIMEOUT = {"quick": 400, "thorough": 5400}
 INTERPS = ["3.12", "3.11", "3.10", "3.9"]
 
@@ -330,6 +331,36 @@ def worker(spec):
         if not ok:
             res.violation(kind="code_dispatch registration is not by identity / latest does not win", variant=which,
                           interp=interp)
+
+    # ---- the decorator form returns the hook, so registrations can be stacked or the name reused -----------
+    for rep in range(10 * scale):
+        fns = []
+        for n in range(3):
+            def stk():
+                return extract_since(sys._getframe(0))
+            fns.append(types.FunctionType(stk.__code__.replace(co_name="stk%d_%d" % (rep, n)), globals(),
+                                          "stk%d_%d" % (rep, n), None, stk.__closure__))
+        seen = []
+
+        @elaborate_frame.register(fns[0])
+        @elaborate_frame.register(fns[1])
+        def _stacked(frame, nxt):
+            seen.append(frame.pyframe.f_code)
+            frame.hide_line = True
+
+        res.evaluations += 1
+        res.count("stacked_registrations")
+        problems = []
+        if not callable(_stacked):
+            problems.append("the decorator form of register() returned %r instead of the hook" % (_stacked,))
+        else:
+            elaborate_frame.register(fns[2], _stacked)     # direct form with the decorated name
+        for n, f in enumerate(fns):
+            fr = f().frames[0]
+            if fr.hide_line is not True:
+                problems.append("hook registered for target %d (of 3, stacked/reused) did not run" % n)
+        if problems:
+            res.violation(kind="stacked / reused registration lost", problems=problems[:3], interp=interp)
 
     # ---- customizations made *after* the code has already been through an extraction --------------------
     for rep in range(20 * scale):
